@@ -90,6 +90,7 @@ CRITERIA = {
     "overlap_only": (["overlap_end_inclusive"], [r_end_incl]),
     "custom_max3": (["seqid", "overlap_end_inclusive", "CUSTOM:max3"], [r_seqid, r_end_incl, r_max3]),
     "single_callable": ("overlap_end_inclusive", [r_end_incl]),
+    "empty": ([], []),  # no criterion can reject: everything joins one run
 }
 
 
@@ -408,7 +409,7 @@ class DbLeg(object):
                 specs.append({"seqid": draw(st.sampled_from(["chr1", "chr1", "chr2"])), "ft": draw(st.sampled_from(["exon", "exon", "CDS"])),
                               "strand": draw(st.sampled_from(["+", "+", "-"])), "start": s, "end": s + draw(st.integers(0, 15))})
             return {"specs": specs, "exclude": draw(st.booleans()), "parent_strand": draw(st.sampled_from(["+", "-"])),
-                    "empty_groups": draw(st.sampled_from([False, False, True]))}
+                    "empty_groups": draw(st.sampled_from([False, False, True])), "file_db": draw(st.booleans())}
 
         return case()
 
@@ -428,7 +429,8 @@ class DbLeg(object):
         for i, s in enumerate(specs):
             par = ";Parent=tx" if s in kids else ""
             lines.append("\t".join([s["seqid"], "src", s["ft"], str(s["start"]), str(s["end"]), ".", s["strand"], ".", "ID=f%d%s" % (i, par)]))
-        db = gffutils.create_db("\n".join(lines) + "\n", ":memory:", from_string=True)
+        dbfn = ctx.path("m.db") if case.get("file_db") else ":memory:"
+        db = gffutils.create_db("\n".join(lines) + "\n", dbfn, from_string=True)
         before = dbsnap.snapshot(db)
         total = sum(s["end"] - s["start"] + 1 for s in kids)
         covered = set()
@@ -456,6 +458,14 @@ class DbLeg(object):
             mkw["featuretypes_groups"] = ()  # documented: "can't be empty" -> treated as (None,), i.e. all features
         res = db.merge_all(exclude_components=case["exclude"], **mkw)
         after = dbsnap.snapshot(db)
+        if case.get("file_db"):
+            # what merge_all stored is there for a second connection as well
+            other = gffutils.FeatureDB(dbfn)
+            seen = dbsnap.snapshot(other)
+            other.conn.close()
+            if seen["features"] != after["features"] or seen["relations"] != after["relations"]:
+                return Failure("merge_all: a second connection to the file does not see what was stored: %s" % dbsnap.diff(after, seen),
+                               sig={"kind": "merge_all-not-committed"})
         multi = [(members, acc) for members, acc in ref if len(members) >= 2]
         if len(res) != len(multi):
             return Failure("merge_all returned %d merged features, expected %d" % (len(res), len(multi)), sig={"kind": "merge_all-count"})
